@@ -41,50 +41,57 @@ def nodes(spec: dict) -> list[dict]:
     return out
 
 
-def expected(spec: dict, max_retries: int, retriable: tuple[str, ...] = ("retry",)) -> tuple[str, Any, dict[str, int]]:
+def expected(spec: dict, max_retries: int, retriable: tuple[str, ...] = ("retry",)) -> tuple[str, Any, dict[str, int], dict[str, int]]:
     """Reference semantics of a program under `max_retries`:
-    -> ("ok", value, executions per node) | ("exc", (kind, node, attempt), executions)
+    -> ("ok", value, lazy, eager) | ("exc", (kind, node, attempt), lazy, eager)
 
-    A body raising a retriable exception is re-executed while fewer than
+    Every launch of a node is a new invocation whose attempts count from 1; a
+    body raising a retriable exception is re-executed while fewer than
     max_retries retries were used; kids are re-launched on every execution of
-    their parent (each launch is a new invocation with its own retry budget),
-    a failing kid fails its parent with the kid's exception (non-retriable
-    unless its kind is retriable for the parent as well)."""
-    counts: dict[str, int] = {}
+    their parent; a failing kid fails its parent with the kid's exception.
 
-    def run_node(node: dict) -> tuple[str, Any]:
+    `lazy` counts executions when a sub-task body only runs once its result is
+    asked for (sync mode: siblings after a failed one never run); `eager` counts
+    them when every launched sub-task runs (distributed mode at quiescence).
+    The outcome is the same under both."""
+    lazy: dict[str, int] = {}
+    eager: dict[str, int] = {}
+    flags = {"ambiguous": False}
+
+    def run_node(node: dict, awaited: bool) -> tuple[str, Any]:
         retries = 0
+        attempt = 0
         while True:
             name = node["n"]
-            counts[name] = counts.get(name, 0) + 1
-            attempt = counts[name]
+            attempt += 1
+            eager[name] = eager.get(name, 0) + 1
+            if awaited:
+                lazy[name] = lazy.get(name, 0) + 1
             fails = node.get("fail") or []
             exc = None
             total = int(node.get("v", 0))
             if attempt in fails and not node.get("fail_after_kids"):
                 exc = (node.get("exc", "retry"), name, attempt)
             else:
-                kid_results = []
-                kids = node.get("kids") or []
-                if node.get("group"):
-                    # all kids are launched; results are consumed in order
-                    launched = [run_node(k) for k in kids]
-                    for r in launched:
-                        if r[0] == "exc":
-                            exc = r[1]
-                            break
-                        kid_results.append(r[1])
-                else:
-                    launched = [run_node(k) for k in kids]
-                    for r in launched:
-                        if r[0] == "exc":
-                            exc = r[1]
-                            break
-                        kid_results.append(r[1])
-                if exc is None:
-                    total += sum(kid_results)
-                    if attempt in fails:
-                        exc = (node.get("exc", "retry"), name, attempt)
+                still = awaited
+                n_failed = 0
+                for k in node.get("kids") or []:
+                    r = run_node(k, still)
+                    if r[0] == "exc":
+                        n_failed += 1
+                    if not still:
+                        continue
+                    if r[0] == "exc":
+                        exc = r[1]
+                        still = False  # later siblings are launched but never awaited
+                    else:
+                        total += r[1]
+                if node.get("group") and n_failed >= 2:
+                    # a distributed group hands results over in completion order: which of
+                    # several failing members surfaces first is schedule-dependent
+                    flags["ambiguous"] = True
+                if exc is None and attempt in fails:
+                    exc = (node.get("exc", "retry"), name, attempt)
             if exc is None:
                 return ("ok", total)
             if exc[0] in retriable and retries < max_retries:
@@ -92,5 +99,10 @@ def expected(spec: dict, max_retries: int, retriable: tuple[str, ...] = ("retry"
                 continue
             return ("exc", exc)
 
-    out = run_node(spec)
-    return (out[0], out[1], counts)
+    out = run_node(spec, True)
+    EXPECTED_FLAGS.clear()
+    EXPECTED_FLAGS.update(flags)
+    return (out[0], out[1], lazy, eager)
+
+
+EXPECTED_FLAGS: dict[str, bool] = {}
